@@ -280,7 +280,10 @@ func (maybeSelf someDef[T]) ToFloat32() (float32, error) {
 		return (ref).(float32), nil
 	case float64:
 		val, err := maybeSelf.ToFloat64()
-		return float32(val), err
+		if (val >= -math.MaxFloat32 && val <= math.MaxFloat32) || math.IsInf(val, 0) || math.IsNaN(val) {
+			return float32(val), err
+		}
+		return 0, ErrConversionSizeOverflow
 	}
 }
 
@@ -354,7 +357,7 @@ func (maybeSelf someDef[T]) ToInt() (int, error) {
 		return 0, ErrConversionSizeOverflow
 	case float32:
 		val, err := maybeSelf.ToFloat32()
-		if val >= math.MinInt32 && val <= math.MaxInt32 {
+		if float64(val) >= math.MinInt32 && float64(val) <= math.MaxInt32 {
 			return int(math.Round(float64(val))), err
 		}
 		return 0, ErrConversionSizeOverflow
@@ -624,13 +627,16 @@ func (maybeSelf someDef[T]) ToInt32() (int32, error) {
 		return 0, ErrConversionSizeOverflow
 	case float32:
 		val, err := maybeSelf.ToFloat32()
-		if val >= math.MinInt32 && val <= math.MaxInt32 {
+		if float64(val) >= math.MinInt32 && float64(val) <= math.MaxInt32 {
 			return int32(math.Round(float64(val))), err
 		}
 		return 0, ErrConversionSizeOverflow
 	case float64:
 		val, err := maybeSelf.ToFloat64()
-		return int32(math.Round(val)), err
+		if val >= math.MinInt32 && val <= math.MaxInt32 {
+			return int32(math.Round(val)), err
+		}
+		return 0, ErrConversionSizeOverflow
 	}
 }
 
@@ -695,13 +701,13 @@ func (maybeSelf someDef[T]) ToInt64() (int64, error) {
 		return (ref).(int64), nil
 	case float32:
 		val, err := maybeSelf.ToFloat32()
-		if val >= math.MinInt64 && val <= math.MaxInt64 {
+		if val >= math.MinInt64 && val < 1<<63 {
 			return int64(math.Round(float64(val))), err
 		}
 		return 0, ErrConversionSizeOverflow
 	case float64:
 		val, err := maybeSelf.ToFloat64()
-		if val >= math.MinInt64 && val <= math.MaxInt64 {
+		if val >= math.MinInt64 && val < 1<<63 {
 			return int64(math.Round(val)), err
 		}
 		return 0, ErrConversionSizeOverflow
@@ -719,8 +725,8 @@ func (maybeSelf someDef[T]) ToByte() (byte, error) {
 	default:
 		return uint8(0), ErrConversionUnsupported
 	case string:
-		parseInt, err := strconv.ParseInt((ref).(string), 10, 8)
-		return uint8(parseInt), err
+		parseUint, err := strconv.ParseUint((ref).(string), 10, 8)
+		return uint8(parseUint), err
 	case bool:
 		val, err := maybeSelf.ToBool()
 		if val {
@@ -767,7 +773,10 @@ func (maybeSelf someDef[T]) ToByte() (byte, error) {
 		return 0, ErrConversionSizeOverflow
 	case int8:
 		val, err := maybeSelf.ToInt8()
-		return uint8(val), err
+		if val >= 0 {
+			return uint8(val), err
+		}
+		return 0, ErrConversionSizeOverflow
 	case int16:
 		val, err := maybeSelf.ToInt16()
 		if val >= 0 && val <= math.MaxUint8 {
@@ -812,8 +821,8 @@ func (maybeSelf someDef[T]) ToUint() (uint, error) {
 	default:
 		return 0, ErrConversionUnsupported
 	case string:
-		parseInt, err := strconv.ParseInt((ref).(string), 10, 32)
-		return uint(parseInt), err
+		parseUint, err := strconv.ParseUint((ref).(string), 10, 32)
+		return uint(parseUint), err
 	case bool:
 		val, err := maybeSelf.ToBool()
 		if val {
@@ -848,16 +857,28 @@ func (maybeSelf someDef[T]) ToUint() (uint, error) {
 		return uint(val), err
 	case int:
 		val, err := maybeSelf.ToInt()
-		return uint(val), err
+		if val >= 0 {
+			return uint(val), err
+		}
+		return 0, ErrConversionSizeOverflow
 	case int8:
 		val, err := maybeSelf.ToInt8()
-		return uint(val), err
+		if val >= 0 {
+			return uint(val), err
+		}
+		return 0, ErrConversionSizeOverflow
 	case int16:
 		val, err := maybeSelf.ToInt16()
-		return uint(val), err
+		if val >= 0 {
+			return uint(val), err
+		}
+		return 0, ErrConversionSizeOverflow
 	case int32:
 		val, err := maybeSelf.ToInt32()
-		return uint(val), err
+		if val >= 0 {
+			return uint(val), err
+		}
+		return 0, ErrConversionSizeOverflow
 	case int64:
 		val, err := maybeSelf.ToInt64()
 		if val >= 0 && val <= math.MaxUint32 {
@@ -866,7 +887,7 @@ func (maybeSelf someDef[T]) ToUint() (uint, error) {
 		return 0, ErrConversionSizeOverflow
 	case float32:
 		val, err := maybeSelf.ToFloat32()
-		if val >= 0 && val <= math.MaxUint32 {
+		if val >= 0 && float64(val) <= math.MaxUint32 {
 			return uint(math.Round(float64(val))), err
 		}
 		return 0, ErrConversionSizeOverflow
@@ -895,8 +916,8 @@ func (maybeSelf someDef[T]) ToUint16() (uint16, error) {
 	default:
 		return uint16(0), ErrConversionUnsupported
 	case string:
-		parseInt, err := strconv.ParseInt((ref).(string), 10, 16)
-		return uint16(parseInt), err
+		parseUint, err := strconv.ParseUint((ref).(string), 10, 16)
+		return uint16(parseUint), err
 	case bool:
 		val, err := maybeSelf.ToBool()
 		if val {
@@ -940,10 +961,16 @@ func (maybeSelf someDef[T]) ToUint16() (uint16, error) {
 		return 0, ErrConversionSizeOverflow
 	case int8:
 		val, err := maybeSelf.ToInt8()
-		return uint16(val), err
+		if val >= 0 {
+			return uint16(val), err
+		}
+		return 0, ErrConversionSizeOverflow
 	case int16:
-		val, err := maybeSelf.ToInt32()
-		return uint16(val), err
+		val, err := maybeSelf.ToInt16()
+		if val >= 0 {
+			return uint16(val), err
+		}
+		return 0, ErrConversionSizeOverflow
 	case int32:
 		val, err := maybeSelf.ToInt32()
 		if val >= 0 && val <= math.MaxUint16 {
@@ -982,8 +1009,8 @@ func (maybeSelf someDef[T]) ToUint32() (uint32, error) {
 	default:
 		return uint32(0), ErrConversionUnsupported
 	case string:
-		parseInt, err := strconv.ParseInt((ref).(string), 10, 32)
-		return uint32(parseInt), err
+		parseUint, err := strconv.ParseUint((ref).(string), 10, 32)
+		return uint32(parseUint), err
 	case bool:
 		val, err := maybeSelf.ToBool()
 		if val {
@@ -1024,13 +1051,22 @@ func (maybeSelf someDef[T]) ToUint32() (uint32, error) {
 		return 0, ErrConversionSizeOverflow
 	case int8:
 		val, err := maybeSelf.ToInt8()
-		return uint32(val), err
+		if val >= 0 {
+			return uint32(val), err
+		}
+		return 0, ErrConversionSizeOverflow
 	case int16:
 		val, err := maybeSelf.ToInt16()
-		return uint32(val), err
+		if val >= 0 {
+			return uint32(val), err
+		}
+		return 0, ErrConversionSizeOverflow
 	case int32:
 		val, err := maybeSelf.ToInt32()
-		return uint32(val), err
+		if val >= 0 {
+			return uint32(val), err
+		}
+		return 0, ErrConversionSizeOverflow
 	case int64:
 		val, err := maybeSelf.ToInt64()
 		if val >= 0 && val <= math.MaxUint32 {
@@ -1039,13 +1075,16 @@ func (maybeSelf someDef[T]) ToUint32() (uint32, error) {
 		return 0, ErrConversionSizeOverflow
 	case float32:
 		val, err := maybeSelf.ToFloat32()
-		if val >= 0 && val <= math.MaxUint32 {
+		if val >= 0 && float64(val) <= math.MaxUint32 {
 			return uint32(math.Round(float64(val))), err
 		}
 		return 0, ErrConversionSizeOverflow
 	case float64:
 		val, err := maybeSelf.ToFloat64()
-		return uint32(math.Round(val)), err
+		if val >= 0 && val <= math.MaxUint32 {
+			return uint32(math.Round(val)), err
+		}
+		return 0, ErrConversionSizeOverflow
 	}
 }
 
@@ -1060,8 +1099,8 @@ func (maybeSelf someDef[T]) ToUint64() (uint64, error) {
 	default:
 		return uint64(0), ErrConversionUnsupported
 	case string:
-		parseInt, err := strconv.ParseInt((ref).(string), 10, 64)
-		return uint64(parseInt), err
+		parseUint, err := strconv.ParseUint((ref).(string), 10, 64)
+		return uint64(parseUint), err
 	case bool:
 		val, err := maybeSelf.ToBool()
 		if val {
@@ -1090,28 +1129,43 @@ func (maybeSelf someDef[T]) ToUint64() (uint64, error) {
 		return uint64(val), err
 	case int:
 		val, err := maybeSelf.ToInt()
-		return uint64(val), err
+		if val >= 0 {
+			return uint64(val), err
+		}
+		return 0, ErrConversionSizeOverflow
 	case int8:
 		val, err := maybeSelf.ToInt8()
-		return uint64(val), err
+		if val >= 0 {
+			return uint64(val), err
+		}
+		return 0, ErrConversionSizeOverflow
 	case int16:
 		val, err := maybeSelf.ToInt16()
-		return uint64(val), err
+		if val >= 0 {
+			return uint64(val), err
+		}
+		return 0, ErrConversionSizeOverflow
 	case int32:
 		val, err := maybeSelf.ToInt32()
-		return uint64(val), err
+		if val >= 0 {
+			return uint64(val), err
+		}
+		return 0, ErrConversionSizeOverflow
 	case int64:
 		val, err := maybeSelf.ToInt64()
-		return uint64(val), err
+		if val >= 0 {
+			return uint64(val), err
+		}
+		return 0, ErrConversionSizeOverflow
 	case float32:
 		val, err := maybeSelf.ToFloat32()
-		if val >= 0 && val <= math.MaxUint64 {
+		if val >= 0 && val < 1<<64 {
 			return uint64(math.Round(float64(val))), err
 		}
 		return 0, ErrConversionSizeOverflow
 	case float64:
 		val, err := maybeSelf.ToFloat64()
-		if val >= 0 && val <= math.MaxUint64 {
+		if val >= 0 && val < 1<<64 {
 			return uint64(math.Round(val)), err
 		}
 		return 0, ErrConversionSizeOverflow
@@ -1131,9 +1185,9 @@ func (maybeSelf someDef[T]) ToUintptr() (uintptr, error) {
 	default:
 		return uintptr(0), ErrConversionUnsupported
 	case string:
-		parseInt, err := strconv.ParseInt((ref).(string), 10, 64)
-		if uint64(parseInt) <= maxUintptr {
-			return uintptr(parseInt), err
+		parseUint, err := strconv.ParseUint((ref).(string), 10, 64)
+		if parseUint <= maxUintptr {
+			return uintptr(parseUint), err
 		}
 		return uintptr(0), ErrConversionSizeOverflow
 	case bool:
@@ -1164,28 +1218,46 @@ func (maybeSelf someDef[T]) ToUintptr() (uintptr, error) {
 		return uintptr(val), err
 	case int:
 		val, err := maybeSelf.ToInt()
-		return uintptr(val), err
+		if val >= 0 {
+			return uintptr(val), err
+		}
+		return uintptr(0), ErrConversionSizeOverflow
 	case int8:
 		val, err := maybeSelf.ToInt8()
-		return uintptr(val), err
+		if val >= 0 {
+			return uintptr(val), err
+		}
+		return uintptr(0), ErrConversionSizeOverflow
 	case int16:
 		val, err := maybeSelf.ToInt16()
-		return uintptr(val), err
+		if val >= 0 {
+			return uintptr(val), err
+		}
+		return uintptr(0), ErrConversionSizeOverflow
 	case int32:
 		val, err := maybeSelf.ToInt32()
-		return uintptr(val), err
+		if val >= 0 {
+			return uintptr(val), err
+		}
+		return uintptr(0), ErrConversionSizeOverflow
 	case int64:
 		val, err := maybeSelf.ToInt64()
-		if uint64(val) <= maxUintptr {
+		if val >= 0 && uint64(val) <= maxUintptr {
 			return uintptr(val), err
 		}
 		return uintptr(0), ErrConversionSizeOverflow
 	case float32:
-		val, err := maybeSelf.ToFloat32()
-		return uintptr(math.Round(float64(val))), err
+		val, err := maybeSelf.ToUint64()
+		if val <= maxUintptr {
+			return uintptr(val), err
+		}
+		return uintptr(0), ErrConversionSizeOverflow
 	case float64:
-		val, err := maybeSelf.ToFloat64()
-		return uintptr(math.Round(val)), err
+		val, err := maybeSelf.ToUint64()
+		if val <= maxUintptr {
+			return uintptr(val), err
+		}
+		return uintptr(0), ErrConversionSizeOverflow
 	}
 }
 
